@@ -984,3 +984,119 @@ async fn verif_c12_timeline() {
     }
     r.emit();
 }
+
+// ------------------------------------------------------------------------------------------
+// C16: two honest clusters with different ids sharing seeds never leak into each other.
+#[test]
+fn verif_c16_isolation() {
+    let mut r = Report::new(
+        "c16_isolation",
+        "cluster ids pairs {('',x),('a','ab'),('Cluster','cluster'),('default-cluster','default-cluster2'),(x,x)}; clusters of 1..2 nodes each, every node of A gossips to every node of B and back (SYN delivered once, twice, or lost; replies delivered or lost), 3 rounds; node_states / live / dead of every node inspected after every delivery",
+        true,
+    );
+    let id_pairs = [("", "x"), ("a", "ab"), ("Cluster", "cluster"), ("default-cluster", "default-cluster2"), ("same", "same")];
+    for (ida, idb) in id_pairs {
+        for na in 1..=2usize {
+            for nb in 1..=2usize {
+                for dup in 0..3u8 {
+                    let case = format!("cluster_ids=({ida:?},{idb:?}) sizes=({na},{nb}) syn_delivery={}", ["once", "twice", "lost"][dup as usize]);
+                    if let Some(rc) = replay_case() {
+                        if rc != case {
+                            continue;
+                        }
+                    }
+                    r.evaluations += 1;
+                    let mk_c = |port: u16, cid: &str| {
+                        let mut config = ChitchatConfig::for_test(port);
+                        config.cluster_id = cid.to_string();
+                        let (_tx, rx) = watch::channel(Default::default());
+                        let mut c = Chitchat::with_chitchat_id_and_seeds(config, rx, vec![("k".to_string(), format!("{cid}-{port}"))]);
+                        c.self_node_state().set("owner", cid);
+                        c
+                    };
+                    let mut a: Vec<Chitchat> = (0..na).map(|i| mk_c(100 + i as u16, ida)).collect();
+                    let mut b: Vec<Chitchat> = (0..nb).map(|i| mk_c(200 + i as u16, idb)).collect();
+                    // inside each cluster: one full handshake so that members know each other
+                    if na == 2 {
+                        let (x, y) = a.split_at_mut(1);
+                        hs(&mut x[0], &mut y[0]);
+                    }
+                    if nb == 2 {
+                        let (x, y) = b.split_at_mut(1);
+                        hs(&mut x[0], &mut y[0]);
+                    }
+                    let same = ida == idb;
+                    let ids_a: Vec<ChitchatId> = a.iter().map(|c| c.self_chitchat_id().clone()).collect();
+                    let ids_b: Vec<ChitchatId> = b.iter().map(|c| c.self_chitchat_id().clone()).collect();
+                    for _round in 0..3 {
+                        for i in 0..na {
+                            for j in 0..nb {
+                                for dir in 0..2 {
+                                    let (src, dst) = if dir == 0 { (&mut a[i], &mut b[j]) } else { (&mut b[j], &mut a[i]) };
+                                    let syn = src.create_syn_message();
+                                    let bytes = syn.serialize_to_vec();
+                                    let deliveries = match dup {
+                                        0 => 1,
+                                        1 => 2,
+                                        _ => 0,
+                                    };
+                                    for _ in 0..deliveries {
+                                        let m = ChitchatMessage::deserialize(&mut &bytes[..]).unwrap();
+                                        let reply = dst.process_message(m);
+                                        if !same {
+                                            if !matches!(reply, Some(ChitchatMessage::BadCluster)) {
+                                                r.fail("not-rejected", format!("a SYN of cluster {ida:?}/{idb:?} was answered with {:?}", reply.as_ref().map(|m| std::mem::discriminant(m))), case.clone());
+                                            }
+                                        }
+                                        if let Some(rep) = reply {
+                                            let rb = rep.serialize_to_vec();
+                                            let rm = ChitchatMessage::deserialize(&mut &rb[..]).unwrap();
+                                            if let Some(ack) = src.process_message(rm) {
+                                                let ab = ack.serialize_to_vec();
+                                                let am = ChitchatMessage::deserialize(&mut &ab[..]).unwrap();
+                                                dst.process_message(am);
+                                            }
+                                        }
+                                    }
+                                }
+                            }
+                        }
+                        for c in a.iter_mut().chain(b.iter_mut()) {
+                            c.update_nodes_liveness();
+                        }
+                        if !same {
+                            for c in &a {
+                                for idv in &ids_b {
+                                    if c.node_state(idv).is_some() || c.live_nodes().any(|x| x == idv) || c.dead_nodes().any(|x| x == idv) {
+                                        r.fail("leak", format!("a node of cluster {ida:?} knows member {:?} of cluster {idb:?}", idv), case.clone());
+                                    }
+                                }
+                            }
+                            for c in &b {
+                                for idv in &ids_a {
+                                    if c.node_state(idv).is_some() || c.live_nodes().any(|x| x == idv) || c.dead_nodes().any(|x| x == idv) {
+                                        r.fail("leak", format!("a node of cluster {idb:?} knows member {:?} of cluster {ida:?}", idv), case.clone());
+                                    }
+                                }
+                            }
+                        }
+                    }
+                    if same && dup != 2 {
+                        // control: with equal ids the clusters do merge (the harness is not vacuous)
+                        if a[0].node_state(&ids_b[0]).is_some() {
+                            r.nontrivial += 1;
+                        } else {
+                            r.fail("control-no-merge", "clusters with the same id did not learn about each other".to_string(), case.clone());
+                        }
+                    } else if !same {
+                        r.nontrivial += 1;
+                        if r.samples.len() < 2 {
+                            r.sample(case.clone());
+                        }
+                    }
+                }
+            }
+        }
+    }
+    r.emit();
+}
